@@ -1,6 +1,7 @@
 import CryoCat.Lemmas.C03
 import CryoCat.Lemmas.C03_Ids
 import CryoCat.Lemmas.C03_Fmt
+import CryoCat.Lemmas.C03_Euler
 /-! C03 — RELION ↔ cryoCAT conversion preserves each particle's pose and identity: property theorems
 about `Model/C03` (the definitions the driver executes), translator obligations about `Gen/C03`. -/
 namespace CryoCat.C03
@@ -39,33 +40,70 @@ theorem defaults_documented :
        "emmotl2relion(output_motl_path=None,tomo_format='',subtomo_format='',relion_version=3.1,pixel_size=1.0,binning=1.0,flip_handedness=False,tomo_dim=None,write_optics=False,optics_data=None,add_object_id=False,add_subunit_id=False)",
        "relion2emmotl(output_motl_path=None,relion_version=None,pixel_size=None,binning=None,update_coordinates=False,flip_handedness=False,tomo_dim=None)",
        "stopgap2relion(output_motl_path=None,tomo_format='',subtomo_format='',relion_version=3.1,pixel_size=1.0,binning=1.0,flip_handedness=False,tomo_dim=None,write_optics=False,optics_data=None,add_object_id=False,add_subunit_id=False)",
-       "relion2stopgap(output_motl_path=None,update_coordinates=False,reset_index=False)"] ∧
+       "relion2stopgap(output_motl_path=None,update_coordinates=False,reset_index=False)",
+       "RelionMotl.prepare_particles_data(tomo_format='',subtomo_format='',version=None,pixel_size=None)",
+       "RelionMotl.prepare_optics_data(use_original_entries=True,optics_data=None,version=None)",
+       "RelionMotl.create_final_output(optics_df=None,version=None)"] ∧
     Gen.C03.exportVersionFallback = 31 := ⟨rfl, rfl⟩
 
 /-- `set_pixel_size` takes the `rlnPixelSize` column as it is — one pixel size per row (not its first entry) -/
 theorem pixel_size_per_row_documented : Gen.C03.pixelSizeFromColumn = "self.relion_df['rlnPixelSize'].values" := by decide
 
-/-- the bodies of the conversion functions (docstrings and comments dropped, local variables renamed positionally, so a
-rename of a local changes nothing) are the reviewed ones: branches no generated input reaches (multi-group optics,
-numeric name cells, …) cannot change unnoticed. The normalised bodies are listed in the evidence (`body:<function>`). -/
+/-- the bodies of the 27 functions the conversion goes through (docstrings, comments, type annotations and the text of
+exception / warning / log messages dropped; locals renamed by binding occurrence, discards merged — so a rename, a type
+hint or a reworded message changes nothing) are the reviewed ones: branches no generated input reaches (multi-group
+optics, numeric name cells, …) cannot change unnoticed. This is an equality of digests, not a statement about behaviour;
+the normalised bodies are in the evidence (`body:<function>`) and a changed body fails there naming the statement. -/
 theorem bodies_documented :
     Gen.C03.bodyDigests =
-      [("RelionMotl.set_pixel_size", "1b5c3f0c50d8ae26926a"),
-       ("RelionMotl.set_version", "346ecb6e55b93a6ba181"),
-       ("RelionMotl.get_version_from_file", "c3e6af07950691c57236"),
-       ("RelionMotl.convert_angles_from_relion", "9fb4cee413da502df684"),
-       ("RelionMotl.convert_angles_to_relion", "82605eee039c6bde354e"),
-       ("RelionMotl.convert_shifts", "b3b41f06be67edb42f16"),
-       ("RelionMotl.parse_tomo_id", "9524518d16f9afbaefaf"),
-       ("RelionMotl.parse_subtomo_id", "8055e1f9677c6f7c907b"),
-       ("RelionMotl.convert_to_motl", "bc7775aa2dd4d6c8622d"),
-       ("RelionMotl.adapt_original_entries", "6454acff4e8920186214"),
-       ("Motl.get_coordinates", "5ec15ffea2dba941e082"),
-       ("Motl.get_angles", "eeb264a64a5942bc12e4"),
-       ("emmotl2relion", "d5c20eefdbf866a98707"),
-       ("relion2emmotl", "6933cca60b7eab0661a5"),
-       ("stopgap2relion", "17217d3e69e374b3ef33"),
-       ("relion2stopgap", "ef4a72acfd7738b57520")] := rfl
+      [("RelionMotl.set_pixel_size", "cd53bdb29134c160a510"),
+       ("RelionMotl.set_version", "35d3dc0cf51e83c4ca7e"),
+       ("RelionMotl.get_version_from_file", "f32c676e1d521b4f3601"),
+       ("RelionMotl.convert_angles_from_relion", "51d6b0352c0f1037b8a6"),
+       ("RelionMotl.convert_angles_to_relion", "c180a7a0cfb16f91e1a1"),
+       ("RelionMotl.convert_shifts", "4fda4c3f584c6a1c9544"),
+       ("RelionMotl.parse_tomo_id", "9509a7885857b17f53dd"),
+       ("RelionMotl.parse_subtomo_id", "46907eb095160cf307f7"),
+       ("RelionMotl.convert_to_motl", "640bcfd8a6893abe3549"),
+       ("RelionMotl.adapt_original_entries", "0ca7eb237685fa5b3211"),
+       ("Motl.get_coordinates", "e3cb48df81065e87cb32"),
+       ("Motl.get_angles", "f4be21b1166c0c9e5f82"),
+       ("emmotl2relion", "1c34729ae8e6fe45e675"),
+       ("relion2emmotl", "3a72b6332ec5e518e532"),
+       ("stopgap2relion", "1756133e4ec8e86ade22"),
+       ("relion2stopgap", "0950b80545c99734e1a9"),
+       ("RelionMotl.__init__", "864eeb9d483c83a319f3"),
+       ("RelionMotl.read_in", "2fc8cefe336ae15a138c"),
+       ("RelionMotl.set_version_specific_names", "5b8f37e5f907f7c4c889"),
+       ("RelionMotl.get_version_specific_names", "4db2210005d40ecac885"),
+       ("RelionMotl.create_particles_data", "956514c4140fe33faeee"),
+       ("RelionMotl.prepare_optics_data", "45829e896a26adb534b6"),
+       ("RelionMotl.prepare_particles_data", "d9ce4e58767c007dd61c"),
+       ("RelionMotl.create_final_output", "0dff659bac8eece3fdc6"),
+       ("RelionMotl.create_relion_df", "66126693ca6c8b3baa27"),
+       ("RelionMotl.write_out", "bbdd6b2a8ddc0e93ce9b"),
+       ("Motl.assign_column", "869bcbd14a2ecc04d20d")] := rfl
+
+/-- **nothing is copied from the particle table into a RELION frame as a pandas Series** (which would be aligned on the row
+labels and pair a particle with the name / id of another row as soon as the labels are not 0..n−1 — after `remove_feature`,
+a sort, or when the RELION table handed in was filtered): every `relion_df[...] = … self.df[...] …` of
+`prepare_particles_data`, `create_relion_df` and `convert_to_motl` takes an array (`.values` / `.to_numpy()`). The model is
+positional (row i of the particle list ↦ row i of the RELION table), so this is what ties it to the code on such lists. -/
+theorem filled_by_position_documented :
+    Gen.C03.filledByPosition =
+      [("prepare_particles_data:tomo_name", true), ("prepare_particles_data:tomo_id", true),
+       ("prepare_particles_data:subtomo_name", true), ("prepare_particles_data:tomo_id", true),
+       ("prepare_particles_data:subtomo_id", true), ("create_relion_df:rlnClassNumber", true),
+       ("create_relion_df:ccObjectName", true), ("create_relion_df:ccSubunitName", true),
+       ("convert_to_motl:ccSubtomoID", true)] := by decide
+
+/-- the `version` keyword of `write_out` reaches every stage of the export — the columns (`create_relion_df` →
+`prepare_particles_data`), the optics table and the block layout (`create_final_output`) — so the version the model is
+run with is the version of the whole file, whichever way the caller gave it -/
+theorem version_forwarded_documented :
+    Gen.C03.versionForwarded =
+      [("write_out->create_relion_df", "version"), ("write_out->prepare_optics_data", "version"),
+       ("write_out->create_final_output", "version"), ("create_relion_df->prepare_particles_data", "version")] := by decide
 
 /-! ### orientation -/
 section ring
@@ -667,6 +705,168 @@ theorem class_survives (tf sf : List Char) (ps : List (Nat × Nat × Nat)) (v : 
         simp only [List.map_cons, List.cons.injEq] at hr ⊢
         exact ⟨(export_identity tf sf pt psub pk qr qh hr.1.symm).1, ih r' hr.2⟩
   exact h3 ps rs h2
+
+/-! ### the Euler service as a global contract, and its instance over ℝ
+
+The theorems above take scipy's `as_euler` as a parameter and assume its post-condition only for the matrix of the
+particle at hand. `EulerOK seq asE` is the same post-condition stated once, as a library contract: for every proper
+rotation matrix the returned triple consists of points of the unit circle and reproduces the matrix in the sequence
+`seq`. Under this contract nothing else is assumed of the extractor, and over ℝ the contract is met by the explicit
+extractors `zyzR` / `zxzR` of `Lemmas/C03_Euler` (square roots only, gimbal lock included), so the `…_real` theorems
+below have NO hypothesis about the Euler service left. They do not say that scipy IS `zyzR`/`zxzR`: for scipy the
+contract stays an assumption, checked on every generated particle. -/
+
+/-- the contract of `Rotation.as_euler(seq)` on proper rotations -/
+def EulerOK [CommRing α] (seq : List Char) (asE : M3 α → Ang3 α) : Prop :=
+  ∀ F : M3 α, IsRot F → (asE F).Unit ∧ eulerMat seq (asE F) = some F
+
+section contract
+variable [CommRing α]
+
+/-- **export under the contract**: for unit (phi, theta, psi) the exported (rot, tilt, psi) are unit angles and RELION's
+rotation is the two-sided inverse of the particle's rotation -/
+theorem export_is_inverse_of_contract (asE : M3 α → Ang3 α) (hE : EulerOK Gen.C03.exportToSeq asE) (ang : Ang3 α)
+    (hu : ang.Unit) :
+    ∃ r, exportAngles asE ang = some r ∧ r.Unit ∧
+      relionMat r * particleMat ang = M3.one ∧ particleMat ang * relionMat r = M3.one := by
+  obtain ⟨F, hF, hR⟩ := exportFed_isRot ang hu
+  have hpost : ∀ F', exportFed ang = some F' → eulerMat Gen.C03.exportToSeq (asE F') = some F' := by
+    intro F' h'
+    have : F' = F := Option.some.inj (h'.symm.trans hF)
+    subst this
+    exact (hE _ hR).2
+  obtain ⟨r, hr, h1, h2⟩ := export_is_inverse asE ang hu hpost
+  refine ⟨r, hr, ?_, h1, h2⟩
+  have e := exportAngles_eq asE ang
+  rw [hr] at e
+  have e' := Option.some.inj e
+  have hFe : F = ZXZ ang.a.c ang.a.s ang.b.c ang.b.s ang.c.c ang.c.s := Option.some.inj (hF.symm.trans (exportFed_eq ang))
+  obtain ⟨ua, ub, uc⟩ := (hE _ hR).1
+  rw [e', ← hFe]
+  exact ⟨Ang.neg_unit _ ua, ub, Ang.neg_unit _ uc⟩
+
+/-- **import under the contract**: for unit RELION angles the stored (phi, theta, psi) are unit angles and the particle's
+rotation is the two-sided inverse of RELION's -/
+theorem import_is_inverse_of_contract (asE : M3 α → Ang3 α) (hE : EulerOK Gen.C03.importToSeq asE) (rln : Ang3 α)
+    (hu : rln.Unit) :
+    ∃ q, importAngles asE rln = some q ∧ q.Unit ∧
+      particleMat q * relionMat rln = M3.one ∧ relionMat rln * particleMat q = M3.one := by
+  obtain ⟨F, hF, hR⟩ := importFed_isRot rln hu
+  have hpost : ∀ F', importFed rln = some F' → eulerMat Gen.C03.importToSeq (asE F') = some F' := by
+    intro F' h'
+    have : F' = F := Option.some.inj (h'.symm.trans hF)
+    subst this
+    exact (hE _ hR).2
+  obtain ⟨q, hq, h1, h2⟩ := import_is_inverse asE rln hu hpost
+  refine ⟨q, hq, ?_, h1, h2⟩
+  have e := importAngles_eq asE rln
+  rw [hq] at e
+  have e' := Option.some.inj e
+  have hFe : F = relionMat rln := Option.some.inj (hF.symm.trans (importFed_eq rln))
+  obtain ⟨ua, ub, uc⟩ := (hE _ hR).1
+  rw [e', ← hFe]
+  exact ⟨Ang.neg_unit _ uc, Ang.neg_unit _ ub, Ang.neg_unit _ ua⟩
+
+end contract
+
+/-- **export followed by import under the contract** (any field, every version, every pixel size): every particle with
+unit angles returns to the same position and the same rotation matrix, and the intermediate RELION row carries the
+inverse rotation, zero origins and the complete position -/
+theorem export_import_pose_of_contract [_root_.Field α] (asE1 asE2 : M3 α → Ang3 α)
+    (h1 : EulerOK Gen.C03.exportToSeq asE1) (h2 : EulerOK Gen.C03.importToSeq asE2) (v : Nat) (px : α) (p : Pose α)
+    (hu : p.ang.Unit) :
+    ∃ r q, exportPose asE1 p = some r ∧ importPose asE2 v px r = some q ∧
+      q.position = p.position ∧ q.rotation = p.rotation ∧ q.ang.Unit ∧
+      r.rotation * p.rotation = M3.one ∧ r.cx = p.x + p.sx ∧ r.cy = p.y + p.sy ∧ r.cz = p.z + p.sz ∧
+      r.ox = 0 ∧ r.oy = 0 ∧ r.oz = 0 := by
+  obtain ⟨ra, hra, hrau, hinv, _⟩ := export_is_inverse_of_contract asE1 h1 p.ang hu
+  obtain ⟨qa, hqa, hqau, _, _⟩ := import_is_inverse_of_contract asE2 h2 ra hrau
+  have hp1 : ∀ F, exportFed p.ang = some F → eulerMat Gen.C03.exportToSeq (asE1 F) = some F := by
+    intro F hF
+    obtain ⟨F0, hF0, hR⟩ := exportFed_isRot p.ang hu
+    have : F = F0 := Option.some.inj (hF.symm.trans hF0)
+    subst this; exact (h1 _ hR).2
+  have hp2 : ∀ r F, exportAngles asE1 p.ang = some r → importFed r = some F → eulerMat Gen.C03.importToSeq (asE2 F) = some F := by
+    intro r F hr hF
+    have : r = ra := Option.some.inj (hr.symm.trans hra)
+    subst this
+    obtain ⟨F0, hF0, hR⟩ := importFed_isRot r hrau
+    have : F = F0 := Option.some.inj (hF.symm.trans hF0)
+    subst this; exact (h2 _ hR).2
+  obtain ⟨r, q, hr, hq, hpos, hrot⟩ := export_import_pose asE1 asE2 v px p hp1 hp2
+  obtain ⟨r', hr', c1, c2, c3, o1, o2, o3⟩ := export_coord asE1 p
+  have er : r' = r := Option.some.inj (hr'.symm.trans hr)
+  subst er
+  have hrang : r'.ang = ra := by
+    have := hr'
+    simp only [exportPose, exportCoord, exportOrigin, Gen.C03.coordOp, Gen.C03.exportOriginZero, hra] at this
+    have := Option.some.inj this
+    rw [← this]
+  have hqang : q.ang = qa := by
+    have := hq
+    simp only [importPose, import_shift_total, hrang, hqa] at this
+    have := Option.some.inj this
+    rw [← this]
+  refine ⟨r', q, hr, hq, hpos, hrot, by rw [hqang]; exact hqau, ?_, c1, c2, c3, o1, o2, o3⟩
+  show relionMat r'.ang * particleMat p.ang = M3.one
+  rw [hrang]; exact hinv
+
+section real
+
+/-- **the contract is met over ℝ**, for both sequences the code uses, by explicit extractors (non-vacuity of `EulerOK`,
+and of every `hpost` hypothesis above, for all rotations at once) -/
+theorem eulerOK_real : EulerOK Gen.C03.exportToSeq zyzR ∧ EulerOK Gen.C03.importToSeq zxzR :=
+  ⟨fun F hF => ⟨(zyzR_post F hF).1, (zyzR_post F hF).2.2⟩, fun F hF => ⟨(zxzR_post F hF).1, (zxzR_post F hF).2.2⟩⟩
+
+/-- **export over ℝ, no assumption on the Euler service**: every particle with unit (phi, theta, psi) is exported with
+unit RELION angles whose ZYZ rotation is the inverse of the particle's zxz rotation -/
+theorem export_is_inverse_real (ang : Ang3 ℝ) (hu : ang.Unit) :
+    ∃ r, exportAngles zyzR ang = some r ∧ r.Unit ∧
+      relionMat r * particleMat ang = M3.one ∧ particleMat ang * relionMat r = M3.one :=
+  export_is_inverse_of_contract zyzR eulerOK_real.1 ang hu
+
+/-- **import over ℝ, no assumption on the Euler service** -/
+theorem import_is_inverse_real (rln : Ang3 ℝ) (hu : rln.Unit) :
+    ∃ q, importAngles zxzR rln = some q ∧ q.Unit ∧
+      particleMat q * relionMat rln = M3.one ∧ relionMat rln * particleMat q = M3.one :=
+  import_is_inverse_of_contract zxzR eulerOK_real.2 rln hu
+
+/-- **export followed by import over ℝ returns every particle to the same position and orientation** — every version
+number, every pixel size (also 0: the exported origin is 0), every position and shift, every orientation given by unit
+angles; no hypothesis about the Euler service -/
+theorem export_import_pose_real (v : Nat) (px : ℝ) (p : Pose ℝ) (hu : p.ang.Unit) :
+    ∃ r q, exportPose zyzR p = some r ∧ importPose zxzR v px r = some q ∧
+      q.position = p.position ∧ q.rotation = p.rotation ∧ q.ang.Unit ∧
+      r.rotation * p.rotation = M3.one ∧ r.cx = p.x + p.sx ∧ r.cy = p.y + p.sy ∧ r.cz = p.z + p.sz ∧
+      r.ox = 0 ∧ r.oy = 0 ∧ r.oz = 0 :=
+  export_import_pose_of_contract zyzR zxzR eulerOK_real.1 eulerOK_real.2 v px p hu
+
+/-- **the same in degrees, hypothesis-free**: for ALL real (phi, theta, psi) in degrees — any range, gimbal lock
+included — and all positions, shifts, versions and pixel sizes there are RELION angles (rot, tilt, psi) in degrees and
+re-imported angles (phi', theta', psi') in degrees such that the export row is the model's export of the particle, its
+ZYZ rotation is the inverse of the particle's zxz rotation, and the re-imported particle has the same position and
+the same rotation matrix -/
+theorem export_import_pose_degrees (v : Nat) (px x y z sx sy sz phi theta psi : ℝ) :
+    ∃ (rot tilt rpsi phi' theta' psi' : ℝ) (r : RPose ℝ) (q : Pose ℝ),
+      exportPose zyzR ⟨x, y, z, sx, sy, sz, ang3R phi theta psi⟩ = some r ∧ r.ang = ang3R rot tilt rpsi ∧
+      relionMat (ang3R rot tilt rpsi) * particleMat (ang3R phi theta psi) = M3.one ∧
+      importPose zxzR v px r = some q ∧ q.ang = ang3R phi' theta' psi' ∧
+      q.position = ⟨x + sx, y + sy, z + sz⟩ ∧ particleMat (ang3R phi' theta' psi') = particleMat (ang3R phi theta psi) := by
+  obtain ⟨r, q, hr, hq, hpos, hrot, hqu, hinv, _⟩ :=
+    export_import_pose_real v px ⟨x, y, z, sx, sy, sz, ang3R phi theta psi⟩ (ang3R_unit phi theta psi)
+  obtain ⟨ra, hra, hrau, _⟩ := export_is_inverse_real (ang3R phi theta psi) (ang3R_unit phi theta psi)
+  have hrang : r.ang = ra := by
+    have := hr
+    simp only [exportPose, exportCoord, exportOrigin, Gen.C03.coordOp, Gen.C03.exportOriginZero, hra] at this
+    have := Option.some.inj this
+    rw [← this]
+  obtain ⟨rot, tilt, rpsi, e1⟩ := ang3R_surj r.ang (by rw [hrang]; exact hrau)
+  obtain ⟨a, b, c, e2⟩ := ang3R_surj q.ang hqu
+  refine ⟨rot, tilt, rpsi, a, b, c, r, q, hr, e1.symm, ?_, hq, e2.symm, hpos, ?_⟩
+  · rw [e1]; exact hinv
+  · rw [e2]; exact hrot
+
+end real
 
 /-! ### non-vacuity: every hypothesis above is met by concrete inputs -/
 
